@@ -133,6 +133,12 @@ def gen_design(r, features=("cname", "attr", "param", "names", "latch", "conn", 
             x = (nb[0], j)
             if x not in outputs:
                 outputs.append(x)
+    if outputs and r.random() < 0.25:
+        # an inout port, the Yosys way: a scalar top-level input listed again on the .outputs line - first, so that ordinary
+        # outputs follow it on the same line
+        sc_in = [nb for nb in inputs if nb[1] is None]
+        if sc_in:
+            outputs.insert(0, r.choice(sc_in))
     conns = []
     if "conn" in features and r.random() < 0.4:
         sc = [nb for nb in nets if nb[1] is None and nb not in outputs and nb not in inputs]
@@ -162,7 +168,8 @@ def write(design, r, style=True):
 
     def blackbox(m):
         out.append(".model " + m["name"])
-        out.append(".inputs " + " ".join(p if w == 1 else " ".join("%s[%d]" % (p, b) for b in range(w)) for p, w in m["inputs"]))
+        bits_ = (lambda w_: list(range(w_)) if not (style and r.random() < 0.3) else list(range(w_))[::-1])
+        out.append(".inputs " + " ".join(p if w == 1 else " ".join("%s[%d]" % (p, b) for b in bits_(w)) for p, w in m["inputs"]))
         out.append(".outputs " + " ".join(p if w == 1 else " ".join("%s[%d]" % (p, b) for b in range(w)) for p, w in m["outputs"]))
         out.append(".blackbox")
         out.append(".end")
@@ -188,6 +195,11 @@ def write(design, r, style=True):
     # port declarations: the reader wants all .inputs lines before .outputs lines
     ins = [fmt_bit(nb) for nb in design["inputs"]]
     outs = [fmt_bit(nb) for nb in design["outputs"]]
+    if style and r.random() < 0.3:
+        # the bits of a bus port may be listed in any order (descending, interleaved with other ports)
+        r.shuffle(ins)
+        if not (design["outputs"] and design["outputs"][0] in design["inputs"]):
+            r.shuffle(outs)
     if style and len(ins) > 2 and r.random() < 0.3:
         k = len(ins) // 2
         wrap(ins[:k], ".inputs")
